@@ -43,6 +43,8 @@ type c14Case struct {
 	Plan  []FaultSpec `json:"plan"`
 }
 
+var compileCount int
+
 // compileMain creates the program's main template through one of the set's four creators.
 func compileMain(set *pongo2.TemplateSet, sp *ProgSpec, via int) (*pongo2.Template, error) {
 	switch via {
@@ -51,7 +53,12 @@ func compileMain(set *pongo2.TemplateSet, sp *ProgSpec, via int) (*pongo2.Templa
 	case 2:
 		return set.FromString(sp.Files[sp.Main])
 	case 3:
-		return set.FromBytes([]byte(sp.Files[sp.Main]))
+		buf := []byte(sp.Files[sp.Main])
+		tpl, err := set.FromBytes(buf)
+		if compileCount++; compileCount%2 == 0 {
+			reuseBuffer(buf) // every other caller reuses its buffer right away
+		}
+		return tpl, err
 	}
 	return set.FromFile(sp.Main)
 }
